@@ -267,6 +267,39 @@ def resource_catalogue():
     one("optional400", "x: int" + "?" * 400 + " = nil\n")
     one("ident4k", "a" * 4000 + " = 1\n")
     one("ident2k_twice", "a" * 2000 + " = 1\nprint " + "a" * 2000 + "\n")
+    # the property's domain ends at 4 kB: every nesting construct at the deepest a 4 kB input can reach
+    # (1 997 balanced / 3 995 unclosed brackets overflowed the stack of `compile` before fix "brackets nested deeper")
+    def fit(cid, pre, open_, mid, close, post=""):
+        n = (4000 - len(pre) - len(mid) - len(post)) // (len(open_) + len(close))
+        one("%s_4k_x%d" % (cid, n), pre + open_ * n + mid + close * n + post + "\n")
+    fit("paren", "x = ", "(", "1", ")")
+    fit("paren_unclosed", "x = ", "(", "1", "")
+    fit("list", "x = ", "[", "1", "]")
+    fit("list_unclosed", "x = ", "[", "1", "")
+    fit("list_typed", "x: int = ", "[", "1", "]")
+    fit("paren_list_mixed", "x = ", "([", "1", "])")
+    fit("call_args", "f = fn(a: int) -> int { return a }\nx = ", "f(", "1", ")")
+    fit("index_in_index", "c: [int...] = [0]\nx = ", "c[", "0", "]")
+    fit("map_key_nest", "x = ", "map[int, int] { 1: ", "1", " }")
+    fit("paren_in_string_and_comment", 'x = "', "(", "", "[", '"\n# ((((\nprint x.len()')
+    fit("listtype", "x: ", "[", "int", "...]", " = []")
+    fit("maptype", "x: ", "map[int, ", "int", "]", " = 1")
+    fit("fntype_paren", "x: ", "fn(", "int", ") -> int", " = 1")
+    fit("block_if", "", "if true {", "", "}")
+    fit("fn_literal", "f = ", "fn() { return ", "1", " }")
+    fit("neg", "x = ", "-", "1", "")
+    fit("not", "x = ", "!", "true", "")
+    fit("get", "o: int? = 1\nx = ", "get ", "o", "")
+    fit("typeof", "x = ", "typeof ", "1", "")
+    fit("optional_marks", "x: int", "?", "", "", " = nil")
+    one("binop_4k", "x = 1" + " + 1" * 998 + "\n")
+    one("cmp_chain_4k", "x = 1" + " < 1" * 990 + "\n")
+    one("and_chain_4k", "x = true" + " && true" * 490 + "\n")
+    one("str_concat_4k", 'x = "a"' + ' + "a"' * 660 + "\n")
+    one("dot_4k", "x = a" + ".b" * 1990 + "\n")
+    one("index_4k", "c: [int...] = [1]\nx = c" + "[0]" * 1300 + "\n")
+    one("call_4k", "f = fn() -> int { return 1 }\nx = f" + "()" * 1900 + "\n")
+    one("elseif_4k", "if false {}" + " else if false {}" * 234 + "\n")
     one("string4k", 'x = "' + "s" * 4000 + '"\n')
     one("string4k_unterminated", 'x = "' + "s" * 4000 + "\n")
     one("comment4k", "#" + "c" * 4000 + "\nx = 1\n")
